@@ -278,6 +278,30 @@ def run(ctx):
                     {"loss(initial_value)": v0_np, "loss(pre_transformation)": v_np, "allowed_error": 2 * tol})
             if est.pre_transformation_std is not None:
                 bad(cfg, "std-wiring", "L-BFGS-B fit carries standard deviations", {})
+            # a second inference on the same estimator with ANOTHER objective (the documented loss_func argument of
+            # run_inference): what is minimised, and what is reported, is the objective now stored - with jit on or off
+            try:
+                import jax.numpy as jnp
+                e2 = runs[1]
+                lf0 = e2.loss_func
+
+                def lf2(zz, lf0=lf0):
+                    return lf0(zz) + 0.5 * jnp.sum((zz - 0.5) ** 2)
+                e2.run_inference(loss_func=lf2)
+                z2 = np.asarray(e2.pre_transformation, dtype=float)
+                rep2 = float(np.asarray(e2.losses, dtype=float)[0])
+                q2 = 0.5 * float(((z2 - 0.5) ** 2).sum())
+                v2 = float(lf2(e2.pre_transformation))
+                v2_start = float(lf2(e2.initial_value))
+                tol2 = tol + 64 * (k + 2) * U * (abs(q2) + abs(v2) + 1.0)
+                evals += 3
+                if abs(v2 - rep2) > tol2 or not v2 <= v2_start + 2 * tol2:
+                    bad(cfg, "second-objective", "after run_inference(loss_func=other) the reported loss / the returned parameters do not belong to the new objective",
+                        {"reported": rep2, "new_objective(pre_transformation)": v2, "new_objective(initial_value)": v2_start,
+                         "old_objective(pre_transformation)": float(lf0(e2.pre_transformation)), "allowed_error": tol2,
+                         "sequence": "est.fit(X); est.run_inference(loss_func=lambda z: old(z) + 0.5*sum((z-0.5)**2))"})
+            except Exception as e:  # noqa
+                bad(cfg, "second-objective|%s" % type(e).__name__, "run_inference(loss_func=other) raises", {"exception": "%s: %s" % (type(e).__name__, str(e)[:200])})
             g0 = np.asarray(jax.grad(lf)(est.initial_value), dtype=float)
             g1 = np.asarray(jax.grad(lf)(est.pre_transformation), dtype=float)
             est._c17_gnorm = float(np.linalg.norm(g1))
